@@ -558,6 +558,13 @@ def run(ctx, eng):
     cm.include(ctx, eng, 'C20', {'PAIR.closed-record'},
                'how a forgotten stream was closed decides between stream '
                'error and connection error: the record must be its own')
+    cm.include(ctx, eng, 'C18',
+               lambda o: o.rule == 'TAB.raise-class' and
+               isinstance(o.where, str) and (
+                   'StateMachine' in o.where or
+                   o.where.startswith('connection.H2Connection.')),
+               'stream error or connection error, and with which code, is '
+               'read off the class the machine raises')
     cm.include(ctx, eng, 'C07', {'PAIR.local-reset'},
                'a reset the library performs itself goes through the '
                'machine (SEND_RST_STREAM), not around it')
